@@ -3,12 +3,20 @@
 from __future__ import annotations
 
 import copy
+import re
 import hashlib
 import json
 from typing import Any
 
 
 XML_SPACE_KEY = 'http://www.w3.org/XML/1998/namespace space'    # wn.lmf.load's key for xml:space
+_XML_WS = re.compile('[ \t\r\n]+')
+
+
+def xml_ws_norm(s: str) -> str:
+    """White-space normalisation over XML's white space only (space, TAB, CR, LF): NO-BREAK SPACE,
+    IDEOGRAPHIC SPACE, NEL ... are ordinary characters of the text."""
+    return _XML_WS.sub(' ', s).strip(' ')
 
 
 def canon(x: Any, key: str = '') -> Any:
@@ -98,7 +106,7 @@ def project(res: dict, target: str) -> dict:
 def _normalise_preserved(x: Any) -> None:
     if isinstance(x, dict):
         if x.get('space') == 'preserve' and isinstance(x.get('text'), str):
-            x['text'] = ' '.join(x['text'].split())
+            x['text'] = xml_ws_norm(x['text'])
             x.pop('space')
         for v in x.values():
             _normalise_preserved(v)
